@@ -222,7 +222,7 @@ def run(ctx):
         "actions naming a record use an object the caller obtained from the storage",
         "raising on 'patch of nothing found' / delete_attr of a missing key is outside the statement (drift only)",
     ]
-    depth, recs = (3, 2) if ctx.quick else (4, 3)
+    depth, recs = (3, 2) if ctx.quick else (4, 2)        # (4, 3) is some 400 000 edges: hours and tens of gigabytes since records carry eight members
     with open(os.path.join(ctx.rundir, "MC_Storage_run.cfg"), "w") as f:
         f.write(CFG.format(depth=depth, recs=recs))
     res = core.run_tlc(ctx, "MC_Storage", "MC_Storage_run.cfg", timeout=3000, workers=1)
